@@ -16,7 +16,8 @@ from corr.agg_common import fromtree_line, quiet, model_ok_err
 RULE = ("for every concrete class a valid document (to_etree of a generated instance); insertions at child "
         "positions of aggregate nodes at any depth (every position of the root in the thorough tier) of: unknown "
         "leaf, unknown empty element, unknown aggregate with random — also otherwise-known — content, "
-        "vendor-prefixed (INTU.xxx) leaf and aggregate, a second YIELD/FROM for the classes that rename the first; "
+        "vendor-prefixed (INTU.xxx) leaf and aggregate, a second YIELD/FROM for the classes that rename the first, an unknown "
+        "aggregate holding a YIELD/FROM at depth 1-3 placed before the real one; "
         "1–3 insertions per document; non-trivial and distinct by (class, document, insertion kind, position)")
 
 UNKNOWN_TAGS = ["XYZZY", "FOO", "NEWFIELD2", "X_1",
@@ -152,6 +153,21 @@ def run(ctx):
             r1 = quiet(Aggregate.from_etree, copy.deepcopy(t2))
             meta.append((name, [["second_" + src, [], -1]], r0, r1, t2))
             lines.append(fromtree_line(t2))
+            # ... and an unknown / vendor AGGREGATE that holds the renamed-from tag somewhere inside, placed BEFORE the real
+            # child: a reader that looks for the tag among all descendants renames the foreign one and drops the real one
+            t3 = copy.deepcopy(base)
+            idx3 = [i for i, ch in enumerate(t3) if ch.tag == src]
+            wrap = ET.Element(rng.choice(["XYZZY", "INTU.PERF", "NEWFIELD2", "VND.INFO"]))
+            holder = wrap
+            for _d in range(rng.randint(0, 2)):
+                holder = ET.SubElement(holder, rng.choice(["PERIOD", "INTU.X", "FOO"]))
+            ET.SubElement(holder, src).text = "9.99" if src == "YIELD" else "someone"
+            if rng.random() < 0.5:
+                ET.SubElement(wrap, "CODE").text = "0"
+            t3.insert(rng.randint(0, idx3[0]), wrap)
+            r3 = quiet(Aggregate.from_etree, copy.deepcopy(t3))
+            meta.append((name, [["unknown_agg_holding_" + src, [], -1]], r0, r3, t3))
+            lines.append(fromtree_line(t3))
     replies = ctx.model.ask(lines)
     for (name, desc, r0, r1, t2), rep in zip(meta, replies):
         impl0 = ["ok", canon_inst(r0[1])] if r0[0] == "ok" else ["err"]
